@@ -15,6 +15,7 @@ CLAIMED = {
     'C01': dict(ref='4/C01', text='bounded symbolic model checking: for each enumerated component shape (<= 6 lines, N <= 2 quick / <= 3 thorough) and both load-matching modes, every feasible path of parse+energy_performance is explored with symbolic energy values; the conservation identities are node identities, the closure and sign/bound clauses are decided by solver-proved lemmas or by cvc5 per path; every path witness is re-run on the untouched build and compared leaf by leaf'),
 }
 CLAIMED.update({
+    'C02': dict(ref='4/C02', text='bounded symbolic model checking against a reference evaluator written in the harness from the equations of the standard and the five documented assumptions (from the declared inputs and the prepared factor list, with every factor of a user set its own symbolic variable, k_exp and area symbolic): per carrier the annual delivered / exported / used quantities, the weighted energy terms (del, exp_a, exp_ab, exp, A, B), the per-service shares, the building totals, per-m2 B and RER are the same DAG nodes as the reference terms on every feasible path; a wrong look-up (destination, step, source), averaging weight or cogeneration factor yields a term over different variables and a counterexample that must violate the tolerant statement on replay; a correct but differently associated implementation would be INCONCLUSIVE, not a violation'),
     'C03': dict(ref='4/C03', text='bounded symbolic model checking of three evaluations (k_exp symbolic, 0, 1) of the same symbolic building in one path context: every flow and step-A leaf is the same DAG node for all k; B(k) = del - (expA + k*expAB), A = del - expA, B(0) = A, B(1) are node identities over the reported fields (after solver-proved exact rewrites such as x + 0*y = x); the affine relation follows from these structural identities and is the replay predicate, not a solver-proved numeric bound'),
     'C04': dict(ref='4/C04', text='bounded symbolic model checking: every whole-building field is the fold over carriers of the per-carrier field (node identity with one of the accumulation orders), breakdown maps have exactly the keys present and the per-carrier entries, per-carrier delivered/exported splits are identities, every per-m2 leaf is the node (1/area)*absolute leaf, and a second symbolic area leaves every other leaf identical; the closeness of x*(1/a) to x/a is a standard two-rounding bound used as a flagged axiom (not solver-proved)'),
     'C05': dict(ref='4/C05', text='bounded symbolic model checking through the real text parser (values are placeholders): declared lines are found with identical value nodes, completion per system and step is the node max(0, use - declared production) on every feasible path of the per-step guards, nothing else is added, re-normalization is compared component by component; enumerated skeletons (ids incl. negative / omitted / repeated, partial / surplus / foreign production), N <= 2 quick'),
@@ -26,6 +27,10 @@ CLAIMED.update({
     'C08': dict(ref='4/C08', text='bounded symbolic model checking of energy_performance(c, f) against energy_performance(c, f.strip(c)) in one path context: same outcome kind and every output leaf the same DAG node, for regulatory and fully symbolic user factor sets; panics of strip are reachability findings replayed on the untouched build'),
     'C12': dict(ref='4/C12', text='bounded symbolic model checking of the load-matching and non-load-matching evaluations of the same symbolic building: per-source allocations are node-identical to f*min(pv, use) and f*min(chp, use - min(pv, use)); f = 1 without load matching, f is the B.32 formula with 0.5 <= f <= 1 (solver-proved one-variable lemma) with it; self-use / grid delivery comparisons by solver-proved monotonicity lemma instances or cvc5 per path'),
     'C13': dict(ref='4/C13', text='bounded symbolic model checking for the four regulatory factor sets at k_exp = 0: RER is the node ren/(ren+nren) of the reported step-B energy (0 when the total is 0); range and nesting inequalities are decided per feasible path by cvc5 / lemma instances above a rounding-noise threshold; several of these inequalities time out and are reported INCONCLUSIVE'),
+})
+CLAIMED.update({
+    'C14': dict(ref='4/C14', text='bounded symbolic model checking of a symbolic building against the same building with a symbolic non-negative increment of on-site electricity production at every step (regulatory factor sets, k_exp symbolic): non-renewable energy, CO2 (steps A and B) and grid-delivered energy of the second are <= those of the first, exactly, through instances of the solver-proved monotonicity lemmas of + and - and of the axioms for * and / (flagged), or by cvc5; the load-matching half and the RER clause are mostly beyond the lemma engine and come back INCONCLUSIVE unless violated'),
+    'C16': dict(ref='4/C16', text='reachability of panics by bounded symbolic execution: for four base files and a corruption grammar (dropped / duplicated / swapped lines and fields, truncated or empty value lists, unknown tags, non-numeric tokens, output / auxiliary / demand lines first, only one line, legacy lines, two demands of different length) with every numeric field ranging over all 2^32 bit patterns (NaN, infinities, negatives, subnormals), every explored path of parse, normalize, strip, energy_performance, the DHW fraction and the three renderers ends in a value or a typed error; every path witness is also given to the real cteepbd binary built from the current tree in the dev and release profile, with and without -F, whose exit status must be 0/1/64/65/73/74 within 10 s; paths beyond the per-unit budget are reported INCONCLUSIVE; arbitrary byte-level corruption and non-UTF-8 input are outside the claim'),
 })
 NA_DEFAULT = 'check not built yet (framework under construction; see DESIGN.md section 10)'
 NA = {}
